@@ -138,3 +138,14 @@ for p in list(NOT_APPLICABLE):
         del NOT_APPLICABLE[p]
 for e in ENGINES:
     e['serves_properties'] = sorted(CHECKS)
+
+_c('C03', 'model_checking',
+   'stateless deviation-bounded schedule search (iterative context bounding + early environment injection) on the real servers in a virtual world, with a delivery-ledger oracle',
+   'Eight scenarios (successful upgrade with/without a pending poll, handshake failing by a wrong frame or a close, overlapping polls, WebSocket-only, two sessions, client CLOSE during sends) x 2-3 tagged messages (text, JSON, binary) x both servers: the client script and the application send script run as parallel scripts; every interleaving of the scripts at quiescence plus every schedule with up to 1 (thorough 2) deviations is executed on the real code from a fresh world, followed by a drain epilogue; the ledger checks at-most-once over all transports, order between happens-before-ordered sends, NOOP-only polls after the upgrade began, completeness and no cross-session delivery.',
+   'Zero-time computation; threaded schedules at synchronisation-operation granularity; asyncio FIFO never permuted; contract-level fake of the threaded WebSocket driver.',
+   'DESIGN.md 5 C03')
+for p in list(NOT_APPLICABLE):
+    if p in CHECKS:
+        del NOT_APPLICABLE[p]
+for e in ENGINES:
+    e['serves_properties'] = sorted(CHECKS)
